@@ -159,6 +159,10 @@ def f4(ctx, rep):
     rep.check(ok, 'F4', 'main:-g-stores', '-g ⇒ store_config', 'main does not route --generate-config to store_config', {'file': m['file'], 'line': m['line']})
     if stc:
         txt = vt.show(stc[0]['args'][0]) + json.dumps(stc[0]['guard'])
+        if not [g for g in ctx.astq['functions'] if g['name'].split('::')[-1] == 'override_configuration' and g['file'].startswith('cli/src/')]:
+            # the option-override step is not a function of that name any more (moved into a method, renamed): F1/F2/F4 are
+            # written against it — no verdict rather than a guess
+            raise core.Incomplete('F4: the function `override_configuration` of the CLI crate was not found (the rules on the option-override step are anchored on it)')
         oc = [c for c in m['calls'] if c.get('f') == 'override_configuration' and any('generate_config' in vt.show(fr.get('c')) and not fr.get('neg') for fr in c['guard'] if fr.get('k') == 'if')]
         ok = bool(oc) and 'Config::default' in vt.show(oc[0]['args'][0])
         rep.check(ok, 'F4', 'main:-g-config-source', 'stored config = override_configuration(Config::default(), options)', 'the configuration written by -g is not the default configuration overridden by the given options', {'file': m['file'], 'line': m['line']})
